@@ -130,6 +130,29 @@ Example C05_late_device_nonvacuous :
   holds 1 before after 21 = true.
 Proof. vm_compute. repeat split; tauto. Qed.
 
+(* the two instants of an activation: the live path sees what arrives from the subscription on, the history
+   path the log as it stands at its snapshot.  Subscription first (i_sub <= i_snap): exactly the announcements
+   addressed to the member are registered, wherever each falls relative to the two instants, in any arrival
+   order; snapshot first: a witness loses the key that arrives in between; and the CURRENT source subscribes
+   first (generated fact) *)
+Theorem C05_activation_window_complete :
+  forall me L i_sub i_snap, (i_sub <= i_snap)%nat ->
+    forall s, In s (registered_window me L i_sub i_snap) <-> In s (flat_map (addressed me) L).
+Proof.
+  intros me L i_sub i_snap H s. split;
+    [apply activation_window_sound | apply activation_window_complete; exact H].
+Qed.
+
+Theorem C05_scan_before_subscription_refuted :
+  let L := [MemberDevice 1 10; ChainKeyFor 20 1; MemberDevice 2 20] in
+  holds_window 1 L 2 1 20 = false /\ In 20 (flat_map (addressed 1) L) /\ holds_window 1 L 1 2 20 = true.
+Proof. exact scan_before_subscription_loses_a_key. Qed.
+
+Theorem C05_activation_subscribes_first :
+  activate_order = ["Subscribe"; "handleGroupMetadataEvent"; "fillMessageKeysHolderUsingPreviousData";
+                    "sendSecretsToExistingMembers"; "AddDeviceToGroup"]%string.
+Proof. exact activation_subscribes_first. Qed.
+
 Print Assumptions C05_roundtrip.
 Print Assumptions C05_opens_iff.
 Print Assumptions C05_wrong_recipient.
@@ -143,3 +166,6 @@ Print Assumptions C05_late_device_complete.
 Print Assumptions C05_guarded_scan_loses_a_key.
 Print Assumptions C05_deferred_complete.
 Print Assumptions C05_receiving_paths_unconditional.
+Print Assumptions C05_activation_window_complete.
+Print Assumptions C05_scan_before_subscription_refuted.
+Print Assumptions C05_activation_subscribes_first.
